@@ -588,8 +588,9 @@ impl Worker {
                 if sel {
                     let all = self.all_candidates();
                     let skip = (chewing_cand_CurrentPage(c) * chewing_cand_ChoicePerPage(c)).max(0) as usize;
-                    let per = chewing_cand_ChoicePerPage(c).max(0) as usize;
-                    self.cand_snap = Some(all.into_iter().skip(skip).take(per).collect());
+                    // the enumeration runs from the start of the current page to the END of the list (paginated_candidates
+                    // skips but does not take; paging itself is C07's subject)
+                    self.cand_snap = Some(all.into_iter().skip(skip).collect());
                     self.cand_pos = 0;
                 }
                 chewing_cand_Enumerate(c);
@@ -895,6 +896,21 @@ impl Worker {
                 }
                 format!("ret={} x{}", r, hexs(&t))
             }
+            "gsk" => {
+                // chewing_get_selKey hands out a pointer INTO the context (not a heap result): reading it is fine,
+                // passing it to chewing_free must be ignored
+                let p = chewing_get_selKey(c);
+                let a = p as usize;
+                if !(a >= self.ctx_lo && a + 40 <= self.ctx_hi) {
+                    self.problem("static-ptr", format!("chewing_get_selKey returned {:#x}: not ten ints inside the context", a));
+                    return "bad-pointer".into();
+                }
+                let keys: Vec<i32> = std::slice::from_raw_parts(p as *const i32, 10).to_vec();
+                self.tok("chewing_get_selKey", "", "");
+                chewing_free(p.cast());
+                self.tok("chewing_free", &a.to_string(), "");
+                format!("{:?}", keys)
+            }
             "fr" => {
                 // release a live result
                 let cands: Vec<usize> = (0..self.heap.len()).filter(|i| !self.heap[*i].freed && self.heap[*i].addr != 0).collect();
@@ -1111,9 +1127,10 @@ fn gen_ops(rng: &mut Rng, disciplined: bool, len: usize) -> Vec<String> {
                 }
             }),
             13 => new.push((*rng.pick(&["reset", "ack", "commit", "clean", "cleanb", "dt", "cn:1"])).to_string()),
-            14 => new.push(match rng.below(3) {
+            14 => new.push(match rng.below(4) {
                 0 => "ps".to_string(),
                 1 => format!("hs:{}", rng.below(6)),
+                2 => "gsk".to_string(),
                 _ => format!("cgs:{}", rng.below(2)),
             }),
             15 => new.push(format!("fr:{}", rng.below(8))),
@@ -1681,7 +1698,36 @@ fn parent_main() {
             for i in 0..150 {
                 let (_, user) = gen_setup(&mut rng);
                 let len = 10 + rng.below(25) as usize;
-                let ops = gen_ops(&mut rng, false, len);
+                #[allow(unused_assignments)]
+                let mut ops = gen_ops(&mut rng, false, len);
+                let mut user = user;
+                if i % 2 == 0 {
+                    // structured F22 shape: part of an enumeration, a mutation of some kind, the rest of the enumeration
+                    user = if rng.chance(1, 4) { "M".to_string() } else { format!("F{}.{}.{}", rng.below(12), rng.below(12), rng.below(12)) };
+                    ops = vec!["ue".to_string()];
+                    for _ in 0..rng.below(3) {
+                        ops.push((*rng.pick(&["uh", "ug"])).to_string());
+                    }
+                    match rng.below(4) {
+                        0 => ops.extend("k:104,k:107,k:52,k:103,k:52,key:2".split(',').map(String::from)),
+                        1 => {
+                            ops.push(format!("ua:{}", rng.below(12)));
+                            ops.push("k:104".into());
+                        }
+                        2 => {
+                            ops.push(format!("ur:{}", rng.below(12)));
+                            ops.push("k:104".into());
+                        }
+                        _ => {
+                            for _ in 0..(1 + rng.below(3)) {
+                                ops.push(format!("ua:{}", rng.below(12)));
+                            }
+                        }
+                    }
+                    for _ in 0..(1 + rng.below(4)) {
+                        ops.push((*rng.pick(&["uh", "ug", "ug"])).to_string());
+                    }
+                }
                 let l = format!("u{} U T {} {}", i, user, ops.join(","));
                 let o = run_worker(&[l.clone()], true);
                 if let Some(r) = o.results.get(&format!("u{}", i)) {
